@@ -1,5 +1,6 @@
 """C15 — re-initialising a manager restores the pristine empty state.
 I1 reset coverage  I2 type agreement  I3 lane counts  I4 whole-struct clear  I5 ring + handlers re-established"""
+import re
 from .. import cf
 from . import inits
 
@@ -21,3 +22,41 @@ def run(chk):
     # the per-architecture init functions agree (error-code reset, feature detection, dispatch to the type inits)
     from . import twins
     twins.rule_arch_siblings(chk, P, 'X6', floor=60)
+    # I7: initialisation starts from a clean error status (the caller of the type init skips the self-test when an error is recorded)
+    i7 = chk.rule('I7', 'every architecture init (the function that detects the CPU features) resets the manager error code before it '
+                        'dispatches to a type-specific init: a stale error from before re-initialisation must not survive it', floor=3)
+    seen = set()
+    for tu in P.tus():
+        for f in P.funcs(tu):
+            if (f.name, f.loc) in seen or not any(ev['e'].get('fn') == 'cpu_feature_detect' for _, _, ev in f.calls()):
+                continue
+            seen.add((f.name, f.loc))
+            if not any(p.get('type', '').startswith('IMB_MGR') for p in (f.raw.get('params') or [])):
+                continue
+
+            def is_reset(ev):
+                return ev['k'] == 'call' and ev['e'].get('fn') == 'imb_set_errno' and len(ev['e'].get('a', [])) == 2 and \
+                    cf.evalc(ev['e']['a'][1]) == 0 and cf.evalc(ev['e']['a'][0]) is None
+
+            def is_type_init(ev):
+                return ev['k'] == 'call' and re.match(r'^init_mb_mgr_\w+_internal$', ev['e'].get('fn') or '') is not None
+            # no path reaches the dispatch to a type-specific init without the reset (paths that fail earlier return with their error)
+            ok = True
+            seenb, st = set(), [f.entry]
+            while st and ok:
+                b = st.pop()
+                if b in seenb or b is None:
+                    continue
+                seenb.add(b)
+                hit = False
+                for ev in f.blocks[b]['ev']:
+                    if is_reset(ev):
+                        hit = True
+                        break
+                    if is_type_init(ev):
+                        ok = False
+                        break
+                if not hit and ok:
+                    st.extend(s_ for s_, _ in f.edges(b, None))
+            i7.check(ok, f.name, f.loc, '%s reaches a type-specific init without having reset the manager error code: the code of an earlier '
+                                        'failure survives re-initialisation (and the self-test is skipped)' % f.name)
